@@ -1,4 +1,4 @@
-use std::fmt;
+use std::{fmt, rc::Rc};
 
 use crate::{
     ink_list::InkList,
@@ -187,13 +187,23 @@ impl Value {
         }
     }
 
-    pub fn retain_list_origins_for_assignment(old_value: &dyn RTObject, new_value: &dyn RTObject) {
+    /// The value to store when `new_value` is assigned over `old_value`: `new_value` itself, or,
+    /// when an empty list replaces a list, a copy of it that remembers the old list's origins.
+    /// `new_value` is never changed in place: it may be a literal of the story's content, which is
+    /// shared by every execution of that statement, by every flow and by saved games.
+    pub fn retain_list_origins_for_assignment(
+        old_value: &dyn RTObject,
+        new_value: Rc<Value>,
+    ) -> Rc<Value> {
         if let Some(old_list) = Self::get_value::<&InkList>(old_value)
-            && let Some(new_list) = Self::get_value::<&InkList>(new_value)
+            && let Some(new_list) = Self::get_value::<&InkList>(new_value.as_ref())
             && new_list.items.is_empty()
         {
-            new_list.set_initial_origin_names(old_list.get_origin_names());
+            let retained = new_list.clone();
+            retained.set_initial_origin_names(old_list.get_origin_names());
+            return Rc::new(Self::new::<InkList>(retained));
         }
+        new_value
     }
 
     pub fn get_cast_ordinal(&self) -> u8 {
